@@ -50,7 +50,9 @@ FOOTPRINT = {
     "C02": (["rem", "tRem", "tstate"] + ALLOC + RES, ["perform", "finished", "init", "record", "absence", "allocate", "working", "free-run", "exception"]),
     "C03": (ALLOC + RES + ALLOC_LOGS + RES_LOGS + ["tstate"], None),
     "C04": (ALLOC, ["allocate", "init", "finished", "free-run", "exception"]),
-    "C05": (["time", "status", "tstate"], None),
+    # the liveness theorems (C05_live_*) rest on the whole step semantics of the live state: who is allocated,
+    # who is present, how much work is left — not on the logs or the costs
+    "C05": (["time", "status", "tstate", "rem"] + ALLOC + RES, None),
     "C06": (["tstate"] + ALLOC, ["finished", "ready", "allocate", "working", "init", "free-run", "exception"]),
     "C07": (COSTS + RES_LOGS, ["cost", "record", "init", "free-run", "exception"]),
     "C08": (ALL_LOGS + ["time"], None),
@@ -58,7 +60,7 @@ FOOTPRINT = {
     "C11": (ALLOC, ["allocate", "exception"]),
     "C12": (PERT, None),
     "C13": (PLACE + ["allocF", "tstate"], None),
-    "C14": (["cstate", "cState", "tstate"], None),
+    "C14": (["cstate", "cState", "tstate", "tState"], None),
 }
 
 
@@ -678,6 +680,7 @@ def _c07_loaded(inner):
         import preds
         inner(ctx)
         _hp.run_loaded(ctx, ctx.n(40, 1500), preds.pred_C07, "the cost-accounting predicate")
+        _hp.run_unit_time(ctx, ctx.n(40, 1500), preds.pred_C07, "the cost-accounting predicate")
     return run
 
 
